@@ -33,7 +33,7 @@ def _print_known(prop: str, excluded: Counter) -> None:
 
 
 def _write_found(prop: str, v: dict) -> str:
-    d = os.path.join(HERE, "found", prop)
+    d = os.path.join(os.environ.get("VERIF_FOUND_DIR") or os.path.join(HERE, "found"), prop)
     os.makedirs(d, exist_ok=True)
     sig = "-".join(str(s) for s in v["signature"])[:80].replace("/", "_").replace(" ", "_")
     name = f"found-{sig}-{core.chash(v['case']):016x}.json"
